@@ -38,10 +38,10 @@ type binScenario struct {
 	Prog     []sched.Op // the same program in the vocabulary of FileProtocol (for trace validation); nil = not modelled
 	Args     []string   // extra args
 	ReadOnly bool
-	Holder   bool   // a competing process holds the lock of f1 (-> lock timeout path)
-	Out      string // --out file name
+	Holder   bool     // a competing process holds the lock of f1 (-> lock timeout path)
+	Out      string   // --out file name
 	Linked   []string // tables that are symbolic links to files kept in a directory next to the repository
-	Preload  string // contents of $HOME/.csvqrc (statements run before the command line is applied; cwd = parent of repo)
+	Preload  string   // contents of $HOME/.csvqrc (statements run before the command line is applied; cwd = parent of repo)
 }
 
 type pointRec struct {
